@@ -81,6 +81,16 @@ def extra(rep, impl_exe, model_exe, rng, tier):
             for n in (range(52, 64) if tier == "quick" else range(44, 70)):
                 for b in (0, 255):
                     probes.append("c13az %d %s" % (pct, J.hx(bytes([b]) * n)))
+        # every percentage 1..100 x every payload length (letters; with one special pair in front so that the bit count
+        # is not a multiple of 5): the check-bit arithmetic (bits*pct/100, an integer division) must be the same on the
+        # explicit and the automatic path for every operand, not only for the usual 23 / 33 %
+        harder = tier == "thorough" or os.environ.get("VERIF_SEARCH_HARDER")
+        for pct in (range(1, 101) if harder else rng.sample(range(1, 101), 12)):
+            for n in (range(1, 260) if harder else rng.sample(range(1, 260), 25)):
+                t = "".join(rng.choice("KLMNOPQRS") for _ in range(n))
+                probes.append("c13az %d %s" % (pct, J.hx(t)))
+                if harder or n % 5 == 0:
+                    probes.append("c13az %d %s" % (pct, J.hx("KKK" + "O " + t)))
         # exactly 64 data words (the compact limit) at low percentages: every length around it
         for pct in ((0, 5, 15) if tier == "quick" else (0, 1, 3, 5, 10, 15, 16, 17)):
             for n in (range(96, 108) if tier == "quick" else range(60, 130)):
